@@ -21,3 +21,4 @@ PROPS = {
                         "real silicon implements PDEP/PSHUFB/PSADBW as the SDM pseudo-code says"],
     },
 }
+FIX_COMMITS = []
